@@ -56,12 +56,13 @@ class ASTWalker:
             ]
         elif isinstance(node, ClassDef):
             definitions = get_classdef_definitions(node)
-            child_nodes = [
-                _def
-                for _def in definitions
-                if _def.__class__.__name__
-                in {"AssignmentStmt", "FuncDef", "ClassDef", "Decorator", "OverloadedFuncDef"}
-            ]
+            # Enums only consist of their instances, methods and nested classes of enums are not part of the API
+            is_enum = self.__get_callbacks(node)[0] == getattr(self._handler, "enter_enumdef", None)
+            if is_enum:
+                walkable_definitions = {"AssignmentStmt"}
+            else:
+                walkable_definitions = {"AssignmentStmt", "FuncDef", "ClassDef", "Decorator", "OverloadedFuncDef"}
+            child_nodes = [_def for _def in definitions if _def.__class__.__name__ in walkable_definitions]
         elif isinstance(node, FuncDef) and node.name == "__init__":
             definitions = get_funcdef_definitions(node)
             child_nodes = [_def for _def in definitions if _def.__class__.__name__ == "AssignmentStmt"]
